@@ -218,7 +218,10 @@ func c19Unit(c *RunCtx, unit int) {
 	}
 	cfg := world.Cfg{Modules: shuffled(r, mods), Mount: pickS(r, "/auth", ""), JSON: r.Intn(2) == 0, Err500: r.Intn(2) == 0, ProfileKeys: []string{"name"}}
 	regWL := []string{"email", "password"}
-	switch r.Intn(3) {
+	switch r.Intn(4) {
+	case 3:
+		regWL = []string{} // the application whitelists nothing for the register page
+		cfg.RegWhitelist = regWL
 	case 1:
 		regWL = []string{"email", "password", "name"}
 		cfg.RegWhitelist = regWL
@@ -268,6 +271,14 @@ func c19Unit(c *RunCtx, unit int) {
 		pairs := []kv{{"email", pid}, {"password", pw}, {"confirm_password", conf}}
 		if r.Intn(8) == 0 {
 			pairs = pairs[:2] // no confirm field at all
+		}
+		switch r.Intn(14) {
+		case 0:
+			pairs = []kv{{"email", pid}} // no password key at all
+		case 1:
+			pairs = []kv{{"email", pid}, {"confirm_password", conf}}
+		case 2:
+			pairs = []kv{{"password", pw}, {"confirm_password", conf}} // no identifier key at all
 		}
 		if r.Intn(5) == 0 { // duplicates: the second differs
 			pairs = append(pairs, kv{"email", existing[0]}, kv{"password", "Other1!password"})
